@@ -2,7 +2,7 @@
 Value terms of the line protocol (DESIGN "Line protocol"): prefix notation, tokens separated
 by single spaces inside one tab field.
 
-  null | true | false | n <f64 bits> <unit id> | s <n|d|s> <hex utf-8, "-" if empty>
+  null | true | false | n <f64 bits> <unit id> | na <f64 bits> <unit id> (not "calculated": calc() result) | s <n|d|s> <hex utf-8, "-" if empty>
   | c <r bits> <g bits> <b bits> <a bits> | f <id> | l <u|s|c|/|x> <0|1> <count> term*
   | m <count> (key value)* | a <count> term* | N term
 
@@ -38,6 +38,10 @@ def parseV {ν : Type} (ob : Nat → ν) : Nat → List String → Option (V ν 
     | "n" :: bits :: u :: r =>
       match bits.toNat?, u.toNat? with
       | some b, some u => some (.num (ob b) u, r)
+      | _, _ => none
+    | "na" :: bits :: u :: r =>
+      match bits.toNat?, u.toNat? with
+      | some b, some u => some (.numAtomic (ob b) u, r)
       | _, _ => none
     | "s" :: q :: h :: r =>
       match parseQuotes q with
